@@ -54,6 +54,10 @@ Json::Value gen() {
   }
   Json::Value cfg(Json::objectValue);
   cfg["rulesets"].append(rulesetJson(0, ka, 0));
+  // the same kernelkill action once more in a second ruleset: it runs in the same tick after the first
+  // has emptied its victim, with whatever the context still remembers of that cgroup
+  bool twin = ka["args"].get("kernelkill", "false").asString() == "true" && P(60);
+  if (twin) cfg["rulesets"].append(rulesetJson(1, ka, 0));
   sc["config"] = cfg;
   sc["interval"] = 5;
   sc["devs"]["8:0"] = "ssd";
@@ -97,6 +101,7 @@ Json::Value gen() {
     ticks.append(tick);
     bool fire = t == nticks - 1 || (plugin == "kill_by_pg_scan" && t == nticks - 2) || (warm && P(70));
     scripts["detectors"]["d0"].append(fire ? "C" : "S");
+    if (twin) scripts["detectors"]["d1"].append(fire ? "C" : "S");
   }
   sc["ticks"] = ticks;
   sc["scripts"] = scripts;
@@ -254,6 +259,12 @@ Verdict run(const Json::Value& sc) {
     }
     prevTracked = tracked;
   }
+  // unpopulated cgroups are skipped: cgroup.kill is never written to a cgroup without a process
+  for (auto& e : R.trace)
+    if (e.k == "write" && e.ret >= 0 && e.b == 0 && e.p.size() > 12 && e.p.compare(e.p.size() - 12, 12, "/cgroup.kill") == 0) {
+      v.fail("cgroup.kill of '" + relOf(R.cgroot, e.p.substr(0, e.p.size() - 12)) + "' written at tick " + std::to_string(e.tick) + " although the cgroup holds no process any more (unpopulated cgroups are skipped)");
+      return v;
+    }
   const World& w = R.worlds[killTick];
   val.w = &w;
   in.w = &w;
@@ -262,7 +273,7 @@ Verdict run(const Json::Value& sc) {
   const Invocation* inv = nullptr;
   auto invs = segment(R);
   for (auto& i : invs)
-    if (i.tick == killTick) inv = &i;
+    if (i.tick == killTick && i.rs == 0 && !inv) inv = &i;
   if (!inv) {
     v.discard = true;
     return v;
